@@ -320,6 +320,9 @@ pub fn run(cfg: &Cfg) -> Report {
         (3, cfg.n(400_000, 5_000_000)),
     ];
     for (class, n) in plan {
+        if !cfg.wants(class) {
+            continue;
+        }
         let rep = par_run(cfg, n, 64, |idx, rep| {
             mon::begin_case(14, class, idx, seed);
             let c = make_case(class, idx, seed, quick);
